@@ -116,7 +116,7 @@ impl Prop for C05 {
             let notes = r.apply_edits(step);
             let sent = r.send(step, notes);
             if !r.barrier() {
-                out.fail("reload-lost", format!("step {sn}: the notified change of a loaded asset's file (the barrier's sentinel) was never applied although hot_reload kept returning"));
+                out.fail("reload-lost", format!("step {sn}: the notified change of a loaded asset's file (the barrier's sentinel) was never applied although hot_reload kept returning {}", r.lost_detail));
                 break;
             }
             let grew: BTreeMap<AKey, u32> = r.watches.iter().map(|(k, w)| (k.clone(), w.growths)).collect();
